@@ -299,3 +299,227 @@ def run_c17(tier, seed):
 
 
 CHECKS['C17'] = run_c17
+
+
+# =============================================================================================
+# C16: table files
+# =============================================================================================
+import sstable
+
+
+def ikey(user, seq, typ):
+    return user + struct.pack('<Q', (seq << 8) | typ)
+
+
+def ikey_cmp_key(k):
+    # bytewise user key ascending, then tag descending
+    return (k[:-8], -struct.unpack('<Q', k[-8:])[0])
+
+
+def gen_entries(rng, n, style):
+    users = set()
+    tries = 0
+    while len(users) < max(1, n // 2) and tries < 20 * n + 100:
+        tries += 1
+        if style == 'prefix': u = b'commonprefix/' * rng.randint(1, 4) + bytes(rng.choice(b'abc') for _ in range(rng.randint(0, 3)))
+        elif style == 'ff': u = b'\xff' * rng.randint(0, 5) + bytes([rng.choice([0, 1, 0xfe, 0xff])]) * rng.randint(0, 2)
+        elif style == 'short': u = bytes(rng.choice([0, 1, 0x61, 0xfe, 0xff]) for _ in range(rng.randint(0, 3)))
+        else: u = bytes(rng.getrandbits(8) for _ in range(rng.randint(0, 24)))
+        users.add(u)
+    if rng.random() < 0.5: users.add(b'')
+    ents = []
+    seq = 1
+    for u in users:
+        for _ in range(rng.choice([1, 1, 2, 3])):
+            seq += rng.randint(1, 3)
+            r = rng.random()
+            vlen = 0 if r < 0.1 else rng.randint(1, 40) if r < 0.7 else rng.randint(100, 5000) if r < 0.97 else rng.randint(100000, 1 << 20)
+            ents.append((ikey(u, seq, rng.choice([1, 1, 1, 0])), vlen, rng.randint(0, 255)))
+    ents = ents[:n]
+    ents.sort(key=lambda e: ikey_cmp_key(e[0]))
+    return ents
+
+
+def rank_table(all_keys):
+    """Dense ranks (1-based) of every distinct key in one common internal-key order."""
+    ks = sorted(set(ikey_cmp_key(k) for k in all_keys))
+    return {k: i + 1 for i, k in enumerate(ks)}
+
+
+def table_case(exe, d, idx, ents, opts, rng, quick):
+    """Build one table with the real builder, decode it independently, run the real reader; return the trace line."""
+    spec = os.path.join(d, 't%d.spec' % idx); tf = os.path.join(d, 't%d.ldb' % idx); res = os.path.join(d, 't%d.res' % idx)
+    keys = [e[0] for e in ents]
+    sorted_keys = [ikey_cmp_key(k) for k in keys]
+    tests = []
+    cand = []
+    for k in keys:
+        u = k[:-8]; tag = struct.unpack('<Q', k[-8:])[0]
+        cand.append(k)
+        cand.append(u + struct.pack('<Q', min(tag + 256, (1 << 64) - 1)))        # same user key, newer sequence: sorts just before
+        cand.append(u + struct.pack('<Q', max(tag - 256, 0) if tag >= 256 else 0))  # same user key, older: just after
+        cand.append(u + b'\x00' + struct.pack('<Q', (1 << 56) - 1 << 8 | 1))
+    cand.append(b'' + struct.pack('<Q', ((1 << 56) - 1) << 8 | 1))
+    cand.append(b'\xff' * 9 + struct.pack('<Q', 0))
+    if quick and len(cand) > 120: cand = rng.sample(cand, 120)
+    users = set(k[:-8] for k in keys)
+    with open(spec, 'w') as f:
+        f.write('%d %d %d %d %d\n' % (opts['block'], opts['restart'], opts['snappy'], opts['bloom'], opts['mmap']))
+        for k, vl, vs in ents: f.write('E %s %d %d\n' % (k.hex(), vl, vs))
+        f.write('TESTS\n')
+        for t in cand: f.write('seek %s\n' % t.hex()); tests.append(('seek', t))
+        for t in cand: f.write('get %s\n' % t.hex()); tests.append(('get', t))
+        f.write('scan\n'); tests.append(('scan', None))
+        f.write('walk %d %d\n' % (rng.randint(1, 1 << 30), 300)); tests.append(('walk', None))
+    p = c.sh([exe, 'build', spec, tf, res], timeout=300)
+    if p.returncode != 0:
+        return dict(fail='table driver exit %s %s' % (p.returncode, p.stderr[-300:]))
+    out = [json.loads(l) for l in open(res)]
+    built, opened, results = out[0], out[1], out[2:]
+    line = dict(e='table', n=len(ents), interval=opts['restart'], opts=opts, open_rc=opened['rc'], blocks=[], seps=[], seeks=[], gets=[],
+                epos=[], euk=[], maxpos=0, scan=dict(n=0, fwd_ok=0, bwd_ok=0, st=-1), walk_bad=1, entries_equal=0, sorted=0, crc_ok=0, handles_tile=0, footer_ok=0, shared0=0, leveldb_equal=0, filter_ok=0)
+    data = open(tf, 'rb').read()
+    try:
+        t = sstable.read_table(data)
+    except (sstable.TableError, ValueError, IndexError) as ex:
+        line['decode_error'] = str(ex)
+        return dict(line=line)
+    dec = [(k, v) for b in t['blocks'] for (k, v, s, o) in b['entries']]
+    exp = [(k, bytes(((vs * 131 + i * 7) & 255) for i in range(vl))) for k, vl, vs in ents]
+    line['entries_equal'] = 1 if dec == exp else 0
+    line['sorted'] = 1 if all(ikey_cmp_key(dec[i][0]) < ikey_cmp_key(dec[i + 1][0]) for i in range(len(dec) - 1)) else 0
+    line['crc_ok'] = 1 if (all(b['crc_ok'] for b in t['blocks']) and t['index_crc_ok'] and t['meta_crc_ok'] and (t['filter'] is None or t['filter']['crc_ok'])) else 0
+    # handles tile the file: data blocks back to back (each + 5-byte trailer), then filter, metaindex, index, footer
+    offs = [(b['offset'], b['size']) for b in t['blocks']]
+    pos = 0; tile = True
+    for o, s in offs:
+        if o != pos: tile = False
+        pos = o + s + 5
+    if t['filter'] is not None:
+        if t['filter']['offset'] != pos: tile = False
+        pos = t['filter']['offset'] + t['filter']['size'] + 5
+    if t['meta_handle'][0] != pos: tile = False
+    pos = t['meta_handle'][0] + t['meta_handle'][1] + 5
+    if t['index_handle'][0] != pos: tile = False
+    pos = t['index_handle'][0] + t['index_handle'][1] + 5
+    if pos + 48 != len(data): tile = False
+    line['handles_tile'] = 1 if tile else 0
+    line['footer_ok'] = 1 if t['footer_pad_zero'] and built['size'] == len(data) and built['entries'] == len(ents) else 0
+    # blocks, restarts, separators in abstract positions
+    ranks = rank_table(keys + cand + [b['separator'] for b in t['blocks']])
+    pos_code = lambda _unused, x: ranks[ikey_cmp_key(x)]
+    line['epos'] = [ranks[ikey_cmp_key(k)] for k in keys]; line['maxpos'] = len(ranks)
+    ukid = {u: i + 1 for i, u in enumerate(sorted(users))}
+    line['euk'] = [ukid[k[:-8]] for k in keys]
+    e0 = 0; sh0 = True
+    for b in t['blocks']:
+        first = e0 + 1; last = e0 + len(b['entries'])
+        off2idx = {o: first + i for i, (k, v, s, o) in enumerate(b['entries'])}
+        rs = []
+        for ro in b['restarts']:
+            if ro not in off2idx: sh0 = False; continue
+            rs.append(off2idx[ro])
+            if b['entries'][off2idx[ro] - first][2] != 0: sh0 = False
+        line['blocks'].append(dict(first=first, last=last, restarts=rs))
+        line['seps'].append(pos_code(sorted_keys, b['separator']))
+        e0 = last
+    line['shared0'] = 1 if sh0 else 0
+    # filter block
+    fok = True
+    if opts['bloom'] > 0:
+        f = t['filter']
+        if f is None: fok = False
+        else:
+            if any(f['offsets'][i] > f['offsets'][i + 1] for i in range(len(f['offsets']) - 1)): fok = False
+            if f['base_lg'] != 11: fok = False
+            if t['blocks'] and len(f['offsets']) < (t['blocks'][-1]['offset'] >> 11) + 1: fok = False
+            for b in t['blocks']:
+                fb = sstable.filter_for_offset(f, b['offset'])
+                for (k, v, s, o) in b['entries']:
+                    if fb is None or not sstable.bloom_may_match(fb, k[:-8]): fok = False   # built on USER keys; never rejects a present key
+    else:
+        if t['filter'] is not None: fok = False
+    line['filter_ok'] = 1 if fok else 0
+    # genuine LevelDB reads the same entries
+    try:
+        from . import ldbref
+        le = ldbref.table_entries([tf], 0)[tf]
+        mine = [(k[:-8], struct.unpack('<Q', k[-8:])[0] >> 8, struct.unpack('<Q', k[-8:])[0] & 255, len(v)) for k, v in dec]
+        line['leveldb_equal'] = 1 if [(a, b, c_, d_) for (a, b, c_, d_, _) in le] == mine else 0
+    except Exception as ex:
+        line['leveldb_equal'] = 0; line['leveldb_error'] = str(ex)[:200]
+    # real reader results
+    vok = True
+    for (kind, tk), r in zip(tests, results):
+        if kind == 'seek':
+            line['seeks'].append([pos_code(sorted_keys, tk), max(0, r['r'])]); vok = vok and r['vok'] == 1 and r['st'] == 0 and r['r'] != -1
+        elif kind == 'get':
+            line['gets'].append([pos_code(sorted_keys, tk), ukid.get(tk[:-8], 0), max(0, r['r'])]); vok = vok and r['vok'] == 1 and r['st'] == 0 and r['r'] != -1
+        elif kind == 'scan':
+            line['scan'] = dict(n=r['n'], fwd_ok=r['fwd_ok'], bwd_ok=r['bwd_ok'], st=r['st'])
+        elif kind == 'walk':
+            line['walk_bad'] = r['bad']
+    if not vok: line['entries_equal'] = 0
+    for f in (spec, tf, res):
+        try: os.unlink(f)
+        except OSError: pass
+    return dict(line=line, blocks=len(t['blocks']), bytes=len(data))
+
+
+def run_c16(tier, seed):
+    prop = 'C16'
+    t0 = time.time(); out = Outcome(prop); rng = random.Random(seed); quick = tier == 'quick'
+    lib = c.build_lib(); exe = c.build_driver('table', lib)
+    from . import ldbref
+    ldbref.build()
+    d = c.scratch('tbl')
+    cases = []
+    styles = ['prefix', 'ff', 'short', 'random']
+    for i in range(60 if quick else 1500):
+        opts = dict(block=rng.choice([16, 64, 256, 1024, 4096, 65536]), restart=rng.choice([1, 2, 3, 16, 32]), snappy=rng.randint(0, 1),
+                    bloom=rng.choice([0, 1, 10]), mmap=rng.randint(0, 3))
+        n = rng.choice([0, 1, 2, 5, 17, 40, 90, 150]) if i % 7 else rng.choice([0, 1, 2])
+        cases.append((i, gen_entries(rng, n, styles[i % 4]) if n else [], opts))
+    results = c.pmap(lambda cs: table_case(exe, d, cs[0], cs[1], cs[2], random.Random(seed * 7919 + cs[0]), quick), cases, c.NCPU)
+    lines = []
+    for cs, r in zip(cases, results):
+        if 'fail' in r:
+            rd = c.replay_dir(prop, 'table'); json.dump(dict(kind='table', why=r['fail'], opts=cs[2], n=len(cs[1])), open(os.path.join(rd, 'replay.json'), 'w'))
+            out.violation('table build/read aborted: %s (opts %s, %d entries)' % (r['fail'], cs[2], len(cs[1])), rd, dict(kind='table_driver'))
+            continue
+        lines.append(r['line'])
+    st = dict(tables=len(lines), entries=sum(l['n'] for l in lines), blocks=sum(len(l['blocks']) for l in lines), seeks=sum(len(l['seeks']) for l in lines),
+              gets=sum(len(l['gets']) for l in lines), option_mixes=len(set(json.dumps(l['opts'], sort_keys=True) for l in lines)), states=0)
+    chunks = [lines[i::8] for i in range(8)]
+
+    def tv(chunk):
+        if not chunk: return None
+        dd = c.scratch('tblt'); tp = os.path.join(dd, 't.ndjson')
+        with open(tp, 'w') as f:
+            for e in chunk: f.write(json.dumps(e, separators=(',', ':')) + '\n')
+        return c.trace_validate('TableTrace', 'TableTrace.cfg', tp, timeout=1500, heap='4g'), chunk, tp
+    for res in c.pmap(tv, chunks, 8):
+        if res is None: continue
+        r, chunk, tp = res
+        st['states'] += r['res'].distinct
+        if not r['accepted'] and not out.full():
+            bad = chunk[r['prefix']] if r['prefix'] is not None and r['prefix'] < len(chunk) else None
+            rd = c.replay_dir(prop, 'table'); shutil.copy(tp, os.path.join(rd, 'trace.ndjson'))
+            slim = None if bad is None else {k: v for k, v in bad.items() if k not in ('seeks', 'gets')}
+            json.dump(dict(kind='table', prop=prop, event=slim), open(os.path.join(rd, 'replay.json'), 'w'), indent=1)
+            out.violation('TableTrace rejects a table: %s' % json.dumps(slim)[:500], rd, dict(kind='table'))
+    c.rmtree(d)
+    rc = out.finish()
+    sample = None
+    for l in lines:
+        if 3 <= l['n'] <= 20:
+            sample = {k: v for k, v in l.items() if k not in ('gets',)}; sample['seeks'] = sample['seeks'][:8]; break
+    cov = dict(states=max(1, st['states']), transitions=max(1, st['states']), traces_validated_against_impl=len(lines), samples=[sample or {}], detail=st, exhaustive=False)
+    c.write_evidence(prop, tier, seed, 'model_checking', cov, time.time() - t0, violations=len(out.violations),
+                     assumptions=['table structure is decoded by an independent Python reader of the LevelDB table format (incl. Snappy decompression, CRC-32C, bloom hash) and cross-checked with genuine LevelDB',
+                                  'Snappy / varint byte layouts are exercised end to end, not modelled in TLA+',
+                                  'comparator: internal-key order over the bytewise user comparator'])
+    return rc
+
+
+CHECKS['C16'] = run_c16
